@@ -398,12 +398,16 @@ snarf_shift(const char *spec)
 	int b = 0, d = 0;
 	char *on = NULL;
 	long int tmp;
+	/* -0B and 0B- ask for Friday, strtol() forgets the sign of naught */
+	bool negz = false;
 
 more:
+	negz = *spec == '-';
 	tmp = strtol(spec, &on, 10);
 	if (UNLIKELY(on == NULL)) {
 		return 0;
 	}
+	negz = negz && !tmp;
 	spec = on;
 	switch (*spec++) {
 	case 'b':
@@ -422,6 +426,7 @@ more:
 			goto again;
 		case '-':
 			sem |= (tmp < 0) << 1U;
+			negz = negz || !tmp;
 			goto again;
 		case ',':
 			b += tmp;
@@ -429,7 +434,7 @@ more:
 		default:
 			return 0;
 		}
-		sem |= b < 0;
+		sem |= b < 0 || !b && negz;
 		sem |= !b << 1U;
 		b = b >= 0 ? b : -b;
 		break;
